@@ -25,6 +25,31 @@ use std::path::PathBuf;
 use tiny_std::fs as tfs;
 use vh::Rng;
 
+/// Every fresh heap block of the harness process (and therefore of the tiny-std code running in it) is
+/// filled with a non-zero pattern: a byte that code reads without having written it (a missing NUL
+/// behind a copied path, a length that is one too long) is then never "accidentally zero" — the
+/// operation acts on a visibly different path and the model/observer comparison reports it.
+struct Poison;
+unsafe impl std::alloc::GlobalAlloc for Poison {
+    unsafe fn alloc(&self, l: std::alloc::Layout) -> *mut u8 {
+        let p = std::alloc::System.alloc(l);
+        if !p.is_null() {
+            std::ptr::write_bytes(p, 0xA5, l.size());
+        }
+        p
+    }
+    unsafe fn dealloc(&self, p: *mut u8, l: std::alloc::Layout) {
+        std::ptr::write_bytes(p, 0x5A, l.size());
+        std::alloc::System.dealloc(p, l)
+    }
+    unsafe fn alloc_zeroed(&self, l: std::alloc::Layout) -> *mut u8 {
+        std::alloc::System.alloc_zeroed(l)
+    }
+    // realloc: the default goes through alloc + copy + dealloc above, so grown tails are poisoned too
+}
+#[global_allocator]
+static POISON: Poison = Poison;
+
 extern "C" {
     fn chroot(path: *const std::ffi::c_char) -> i32;
     fn umask(mask: u32) -> u32;
@@ -134,6 +159,9 @@ fn exec(op: &Op, iter_cap: usize, env: &Env) -> (Out, u64) {
     (out, disturb::signals_seen() - before)
 }
 
+/// (bytes to read from the source handle before `File::copy`) << 1 | (copy a second time); 0 = plain copy
+static COPY_HISTORY: std::sync::atomic::AtomicUsize = std::sync::atomic::AtomicUsize::new(0);
+
 fn exec_inner(op: &Op, iter_cap: usize) -> Out {
     let r = vh::catch(|| -> Result<Value, tiny_std::Error> {
         match op {
@@ -162,8 +190,28 @@ fn exec_inner(op: &Op, iter_cap: usize) -> Out {
             }
             Op::Copy { src, dst, via_handle } => {
                 if *via_handle {
-                    let f = tfs::File::open(&ustr(src))?;
+                    let mut f = tfs::File::open(&ustr(src))?;
+                    // history on the same handle (copy matrix): bytes read first, copy made twice. The
+                    // source handle's file position is no part of "the source's content".
+                    let hist = COPY_HISTORY.load(std::sync::atomic::Ordering::Relaxed);
+                    let (pre_read, twice) = (hist >> 1, hist & 1 == 1);
+                    if pre_read > 0 {
+                        use tiny_std::io::Read as _;
+                        let mut sink = vec![0u8; pre_read];
+                        let mut got = 0;
+                        while got < pre_read {
+                            let n = f.read(&mut sink[got..])?;
+                            if n == 0 {
+                                break;
+                            }
+                            got += n;
+                        }
+                    }
                     let _d = f.copy(&ustr(dst))?;
+                    if twice {
+                        drop(_d);
+                        let _d2 = f.copy(&ustr(dst))?;
+                    }
                 } else {
                     let _d = tfs::copy_file(&ustr(src), &ustr(dst))?;
                 }
@@ -1715,7 +1763,22 @@ fn mode_copy(cx: &mut Ctx, budget: u64) {
                         dst: f(&dst),
                         via_handle,
                     };
-                    run_op(cx, &op, None, &format!("copy-matrix src_size={sz} dest={prior} abs={abs}"));
+                    let mut hist = String::new();
+                    if via_handle {
+                        let pre = match cx.r.below(5) {
+                            0 => 0,
+                            1 => 1,
+                            2 => 16,
+                            3 => sz / 2,
+                            _ => sz + 3,
+                        };
+                        let twice = cx.r.below(2) == 1;
+                        COPY_HISTORY.store(pre << 1 | twice as usize, std::sync::atomic::Ordering::Relaxed);
+                        hist = format!(" handle-history: read {pre} bytes first, copies={}", 1 + twice as usize);
+                        vh::count("copy_via_handle_with_history", (pre > 0 || twice) as u64);
+                    }
+                    run_op(cx, &op, None, &format!("copy-matrix src_size={sz} dest={prior} abs={abs}{hist}"));
+                    COPY_HISTORY.store(0, std::sync::atomic::Ordering::Relaxed);
                     let _ = std::fs::remove_dir_all("cp");
                     let _ = std::fs::remove_file("s/victim");
                     std::fs::create_dir("cp").unwrap();
